@@ -90,13 +90,13 @@ func (v *VT) convertible() bool {
 	if v.Bad != "" {
 		return false
 	}
-	for _, e := range v.List {
-		if !e.convertible() {
-			return false
+	for i, e := range v.List {
+		if !e.convertible() || i > 0 && e.mtype() != v.List[0].mtype() {
+			return false // entries of one container must convert to one type
 		}
 	}
-	for _, e := range v.MapV {
-		if !e.convertible() {
+	for i, e := range v.MapV {
+		if !e.convertible() || i > 0 && e.mtype() != v.MapV[0].mtype() {
 			return false
 		}
 	}
@@ -494,7 +494,7 @@ func genProg7(r *rng, e *Env7) string {
 // --- mutations ---------------------------------------------------------------------
 
 var mutKinds = []string{"same", "same", "contents", "extra", "numkind", "ptrflip", "carrier", "reorder", "reorder", "reorder-top",
-	"maybe-flip", "raw", "drop", "retype-top", "retype-deep", "field-add", "field-remove", "field-rename", "nil-flip", "bad"}
+	"maybe-flip", "raw", "hetero", "hetero", "drop", "retype-top", "retype-deep", "field-add", "field-remove", "field-rename", "nil-flip", "bad"}
 
 // collect object nodes (with their depth) below the bindings
 func objNodes(e *Env7) []*VT {
@@ -700,6 +700,30 @@ func (g *gen7) mutate(a *Env7, kind string) *Env7 {
 			}
 			return false
 		})
+	case "hetero":
+		// a container with a concrete Go element type whose entries convert to different
+		// yae types (an untagged pointer field that is nil in some entries only)
+		mkEntry := func(nilp bool, n int) *VT {
+			return &VT{K: "obj", Fields: []*Field{
+				{Name: "id", V: &VT{K: "num", NumKind: "int", Num: float64(n)}},
+				{Name: "p", V: &VT{K: "num", NumKind: "int", Num: float64(n + 1)}, Ptr: true, Nil: nilp},
+			}}
+		}
+		cont := &VT{K: "map", KeyK: "str", Proto: mkEntry(false, 0)}
+		first := r.chance(0.5)
+		for i := 0; i < 2+r.intn(3); i++ {
+			cont.MapK = append(cont.MapK, &VT{K: "str", Str: "h" + strconv.Itoa(i)})
+			cont.MapV = append(cont.MapV, mkEntry((i%2 == 0) == first, i))
+		}
+		if r.chance(0.3) {
+			cont = &VT{K: "list", Proto: cont.Proto, List: cont.MapV}
+		}
+		if len(e.Binds) > 0 && r.chance(0.5) {
+			b := e.Binds[r.intn(len(e.Binds))]
+			b.V, b.Ptr, b.Nil, b.Maybe = cont, false, false, false
+		} else {
+			e.Binds = append(e.Binds, &Field{Name: "hx", V: cont})
+		}
 	case "bad":
 		e.Carrier = "map"
 		if len(e.Binds) > 0 {
@@ -946,7 +970,7 @@ func runHist7(h *Hist7, x *evalCtx) hist7Result {
 }
 
 // dominant names the mutation a violation is attributed to in its signature.
-var mutPriority = []string{"bad", "drop", "retype-top", "retype-deep", "field-add", "field-remove", "field-rename", "nil-flip",
+var mutPriority = []string{"bad", "hetero", "drop", "retype-top", "retype-deep", "field-add", "field-remove", "field-rename", "nil-flip",
 	"reorder", "reorder-top", "raw", "carrier", "ptrflip", "numkind", "maybe-flip", "extra", "contents", "same"}
 
 func dominant(muts []string) string {
